@@ -239,6 +239,16 @@ fn matrix_leg(g: &Grammar, triples: bool) -> Acc {
         texts.push(format!("{}a{}", "if ".repeat(n), " then b else c".repeat(n)));
         texts.push(format!("{}z", "if a then b else ".repeat(n)).replace("else z", "z"));
     }
+    // reserved words that are not grammar keywords, and keyword look-alikes, in every identifier position
+    for w in ["key", "val", "starts", "ends", "upper", "lower", "date", "datetimes", "is", "to", "Int", "IF", "nones", "i1_0", "f1_5", "true_", "inn", "android"] {
+        texts.push(format!("{w}(x)"));
+        texts.push(format!("{w}"));
+        texts.push(format!("x.{w}"));
+        texts.push(format!(":{w}"));
+        texts.push(format!("{{{w}: {w}}}"));
+        texts.push(format!("{w}({w}.{w}) + :{w}"));
+        texts.push(format!("@{w}: i1; {w}"));
+    }
     // many sequential groups (a counter that is not decremented would show) and real nesting
     for n in [63usize, 64, 65, 70, 130] {
         texts.push(format!("[{}]", (0..n).map(|i| format!("{{a: x{i}}}")).collect::<Vec<_>>().join(", ")));
